@@ -50,7 +50,15 @@ def run(rep):
     # the kernel's file size limit; the final tree is judged by Spec.rewriteOk (tools/rewriteproc.py)
     import proc
     import rewriteproc
-    proc_cov = rewriteproc.stage(rep, proc.Tools(sc))
+    import attactions
+    tools = proc.Tools(sc)
+    proc_cov = rewriteproc.stage(rep, tools)
+    # actions inside attachment { } blocks: rejected as a whole, or the whole message is preserved (tools/attactions.py, shared with C02)
+    att_cov = attactions.stage(rep, tools, 'C08')
+    # the buffer the header values and the message itself are built in, against its index-level model and the append statement
+    # (tools/lbuf.py; C07 runs the long form)
+    import lbuf
+    bstage = lbuf.stage(rep, sc, random.Random(rep.seed * 7919 + 8), 700 if rep.tier == 'quick' else 6000, big=True)
     d.conclude('message.c (headers, message_write) <-> Model/Header.lean')
     vlib.lean_conclude(rep)
     applicable = [i for i, s in enumerate(spec) if s is not None]
@@ -79,6 +87,8 @@ def run(rep):
         'spec_failures': len(d.spec_fail),
         'sanitizer_faults': len(d.faults),
         'process_level_rewrite_under_faults': proc_cov,
+        'actions_inside_attachment_blocks': att_cov,
+        'libks_buffer': bstage,
     })
     rep.assumptions += ['C locale / C.utf8', 'set values contain no newline or NUL and do not start with a blank (SetOk)',
                         'process level: single faults; the kernel enforces the file size limit as RLIMIT_FSIZE does (short count, then EFBIG)']
@@ -87,6 +97,21 @@ def run(rep):
 def replay(rep, path):
     import json
     j = json.load(open(path))
+    if j.get('stage') == 'attachment-actions':
+        import proc
+        import attactions
+        sc = vlib.Scratch()
+        vlib.lean_gate(rep, 'C08', sc, [])
+        attactions.replay(proc.Tools(sc), j)
+        rep.coverage.update({'evaluations': 1, 'distinct_nontrivial': 1})
+        return
+    if str(j.get('stage', '')).startswith('libks buffer'):
+        import lbuf
+        sc = vlib.Scratch()
+        vlib.lean_gate(rep, 'C08', sc, [])
+        lbuf.replay(rep, sc, j)
+        rep.coverage.update({'evaluations': 1, 'distinct_nontrivial': 1})
+        return
     if j.get('stage') == 'process':
         import proc
         import rewriteproc
